@@ -131,6 +131,38 @@ func c13Compare(t *mon.T, label string, st carv2.Stats, rs refStats, a *refcar.A
 	}
 }
 
+type c13Hdr struct {
+	name string
+	body []byte
+}
+
+// c13LenientHeaders encodes {roots, version: 1} in CBOR forms other than the writer's.
+func c13LenientHeaders(roots [][]byte) []c13Hdr {
+	key := func(k string) []byte { return append([]byte{0x60 | byte(len(k))}, k...) }
+	var items []byte
+	for _, c := range roots {
+		items = append(items, 0xd8, 0x2a)
+		items = append(items, c19CborHead(2, uint64(len(c)+1))...)
+		items = append(items, 0x00)
+		items = append(items, c...)
+	}
+	arr := append(c19CborHead(4, uint64(len(roots))), items...)
+	indef := append(append([]byte{0x9f}, items...), 0xff)
+	cat := func(parts ...[]byte) []byte {
+		var out []byte
+		for _, p := range parts {
+			out = append(out, p...)
+		}
+		return out
+	}
+	return []c13Hdr{
+		{"version-as-non-minimal-integer", cat([]byte{0xa2}, key("roots"), arr, key("version"), []byte{0x18, 0x01})},
+		{"roots-as-indefinite-length-array", cat([]byte{0xa2}, key("roots"), indef, key("version"), []byte{0x01})},
+		{"indefinite-length-map", cat([]byte{0xbf}, key("roots"), arr, key("version"), []byte{0x01, 0xff})},
+		{"version-before-roots", cat([]byte{0xa2}, key("version"), []byte{0x01}, key("roots"), arr)},
+	}
+}
+
 // c13Archive builds a valid archive and returns file + decoded reference + options used for reading.
 func c13Archive(r *gen.RandT, container string) ([]byte, *refcar.Archive, lab.Cfg) {
 	content := gen.MakeContent(r, gen.ContentOpts{MinBlocks: 0, MaxBlocks: 9, MaxRoots: 4, Dups: true, Boundaries: true, RootsFromBlocks: r.Intn(2) == 0, TwinRoots: true, Block: gen.BlockOpts{MaxSize: 260}})
@@ -235,6 +267,42 @@ func runC13(t *mon.T, raw json.RawMessage) {
 				} else {
 					t.Cover("limit-rejected")
 				}
+			}
+		}
+		// headers that are not in the writer's canonical form but that the readers accept (non-minimal
+		// integer, indefinite-length array or map, other key order): whatever the block reader scans,
+		// Inspect must report — same verdict, same statistics
+		if (container == "v1" || container == "v1-nullpad") && len(rs.Roots) > 0 {
+			rest := file[a.Payload.HeaderSize:]
+			for _, hv := range c13LenientHeaders(rs.Roots) {
+				in := append(append(refcar.PutUvarint(nil, uint64(len(hv.body))), hv.body...), rest...)
+				scanned, scanOK := 0, false
+				if br, err := carv2.NewBlockReader(bytes.NewReader(in), cfg.Opts()...); err == nil {
+					for {
+						_, err := br.Next()
+						if err == io.EOF {
+							scanOK = true
+							break
+						}
+						if err != nil {
+							break
+						}
+						scanned++
+					}
+				}
+				if !scanOK {
+					t.Cover("lenient-header:not-accepted-by-the-scan:" + hv.name)
+					continue
+				}
+				t.Cover("lenient-header:" + hv.name)
+				st, err := inspect(in, true, cfg.Opts()...)
+				t.Events(1)
+				if err != nil {
+					t.ViolateD("Inspect(true)/lenient-header:"+hv.name+"/rejected-but-scan-accepts", map[string]any{"header_hex": lab.Hex(hv.body), "blocks_scanned": scanned},
+						"a verifying scan reads all %d blocks behind a %s header, Inspect(true) fails: %v", scanned, hv.name, err)
+					continue
+				}
+				c13Compare(t, "lenient-header:"+hv.name, st, rs, a)
 			}
 		}
 		t.Sample(map[string]any{"family": "valid", "container": container, "blocks": rs.BlockCount, "roots": len(rs.Roots), "roots_present": rs.RootsPresent, "avg_block": rs.AvgBlock})
